@@ -32,6 +32,7 @@ type c19Op struct {
 	Who      int          `json:"who,omitempty"`
 	Contents []c19Content `json:"contents,omitempty"`
 	Copies   int          `json:"copies,omitempty"`  // identical messages in the one transaction
+	NoTx     bool         `json:"no_tx,omitempty"`   // executed outside a signed transaction (e.g. by a passed proposal in the end blocker): empty tx bytes
 	Dt       int64        `json:"dt,omitempty"`      // block: time step (ns)
 	Foreign  int          `json:"foreign,omitempty"` // which other-module operation
 }
@@ -49,6 +50,7 @@ type c19Machine struct {
 	raw   map[string][]byte // record store image of the previous step
 	dup   map[string]int    // creator+contents -> count
 	nDup  int
+	nNoTx int
 	nOps  int
 	seq   int
 }
@@ -65,7 +67,8 @@ var c19Algos = []string{"sha256", "md5", ""}
 func (m *c19Machine) Next(t *rapid.T) c19Op {
 	switch k := rapid.IntRange(0, 9).Draw(t, "kind"); {
 	case k < 6:
-		op := c19Op{Kind: "create", Who: rapid.IntRange(0, 2).Draw(t, "who"), Copies: rapid.SampledFrom([]int{1, 1, 2, 3}).Draw(t, "copies")}
+		op := c19Op{Kind: "create", Who: rapid.IntRange(0, 2).Draw(t, "who"), Copies: rapid.SampledFrom([]int{1, 1, 2, 3}).Draw(t, "copies"),
+			NoTx: rapid.IntRange(0, 3).Draw(t, "notx") == 0}
 		n := rapid.IntRange(1, 3).Draw(t, "n")
 		for i := 0; i < n; i++ {
 			// mostly valid, small alphabet so that byte-identical records are common
@@ -106,7 +109,14 @@ func (m *c19Machine) Apply(op c19Op) error {
 		for i := 0; i < op.Copies; i++ {
 			msgs = append(msgs, msg)
 		}
-		res := m.c.DeliverTx(nil, msgs...)
+		var txBytes []byte // nil = unique bytes per transaction
+		if op.NoTx {
+			// a message routed by a module (gov/group proposal execution) runs with the context's empty tx bytes:
+			// the recorded tx hash is then the same every time, in every block
+			txBytes = []byte{}
+			m.nNoTx++
+		}
+		res := m.c.DeliverTx(txBytes, msgs...)
 		last := res[len(res)-1]
 		if !valid {
 			if last.Outcome == chain.OK {
@@ -213,6 +223,9 @@ func (m *c19Machine) Classify() (bool, []string) {
 	}
 	if len(m.order) >= 5 {
 		cl = append(cl, "records>=5")
+	}
+	if m.nNoTx >= 2 {
+		cl = append(cl, "same-tx-hash-in-different-txs")
 	}
 	return m.nDup > 0, cl
 }
